@@ -3,6 +3,7 @@ import random
 
 import exprgen as X
 import impl
+import probes
 from core import Verdict
 
 RULE = ('expressions generated from the grammar (depth <= 5 quick / 9 thorough) over all literal notations, labels '
@@ -113,6 +114,11 @@ def generate(rng, tier):
     n = 450 if tier == 'quick' else 10000
     cases = [gen_case(rng, tier) for _ in range(n)]
     for c in cases:
+        # a third channel: parse_expression(text).get_value(scope) called directly (function-level probe, no statement
+        # syntax around the text, so blank text and ''' are in scope too)
+        if len(c['exprs']) == 1 and rng.random() < 0.3:
+            c['direct'] = True
+            continue
         # error / malformed / corner texts are observed through both channels: a 512-bit numeric operand and a .8byte line
         # (a blank text is "no value" for a data line, and ''' is an empty string followed by a quote there)
         if c['kind'] != 'valid' and rng.random() < 0.5 and c['exprs'][0].strip() and "'''" not in c['exprs'][0]:
@@ -133,6 +139,8 @@ def asm_text(case):
 
 
 def to_impl(case):
+    if case.get('direct'):
+        return probes.call('eval_expr', case['exprs'][0], [[k, v] for k, v in case['env'].items()])
     isa = dict(ISA)
     isa['general'] = dict(ISA['general'], endian=case['endian'])
     return impl.compile_case(isa, {'main.asm': asm_text(case)})
@@ -155,6 +163,22 @@ def judge(case, ir, mrs):
     if ir['status'] == 'timeout':
         return {'verdict': Verdict.VIOLATION, 'detail': 'no termination; ' + det, 'tags': tags}
     model_err = [m for m in mrs if 'err' in m]
+    if case.get('direct'):
+        tags.append('direct-call')
+        got = ir['ret']['value'] if ir['status'] == 'ok' and isinstance(ir.get('ret'), dict) else None
+        if got is None:
+            tags.append('rejected')
+            if model_err:
+                return {'verdict': Verdict.OK, 'nontrivial': True, 'tags': tags, 'detail': det + ' both rejected'}
+            return {'verdict': Verdict.VIOLATION, 'tags': tags,
+                    'detail': det + f' parse_expression/get_value rejected ({str(ir.get("msg"))[:120]}), model value={mrs[0].get("value")}'}
+        tags.append('evaluated')
+        if model_err:
+            return {'verdict': Verdict.VIOLATION, 'tags': tags,
+                    'detail': det + f' real code evaluates to {got} but the text is not a well-formed/defined expression: {model_err[0]}'}
+        if got == mrs[0]['value']:
+            return {'verdict': Verdict.OK, 'nontrivial': case['nops'] >= 2, 'tags': tags, 'detail': det}
+        return {'verdict': Verdict.VIOLATION, 'tags': tags, 'detail': det + f' real code evaluates to {got}, arithmetic value {mrs[0]["value"]}'}
     actual = impl.fbytes(ir, 'out.bin') if ir['status'] == 'ok' else None
     if actual is None:
         tags.append('rejected')
